@@ -20,6 +20,9 @@ type ('sh, 'ts, 'l, 'op, 'ret) comp = {
   final_digest : 'ret list -> string;
   pc_of : 'l -> Obj.t;          (* the program-counter constructor inside a local state *)
   sh_digest : 'sh -> string;    (* observable part of the final shared state, appended to the digest *)
+  extra : (string * string) list -> string list list -> 'op list list;  (* threads the code under test may spawn *)
+  with_choices : 'sh -> int list -> 'sh;   (* per-run oracle stream (select choices) *)
+  cfg_digest : (Obj.t -> string) option;   (* digest needing the whole configuration (thread states) *)
 }
 
 (* coverage of model program counters: kind -> set of constructor keys *)
@@ -64,12 +67,15 @@ let process_runs (type sh ts l op ret) (c : (sh, ts, l, op, ret) comp) (s : scn)
   let nthr = List.length s.threads in
   let progs = List.map (fun th -> List.map (fun tok -> let (n, a) = parse_tok tok in c.parse_op n a)
                            (List.filter (fun tok -> tok <> "/") th)) s.threads in
+  let extra = c.extra s.opts s.threads in
+  let nextra = List.length extra in
   let cfg0 = init (c.sh0 s.opts s.pre) c.ts0
-      ((c.prefill s.opts s.pre :: progs) @ [c.final_prog s.opts s.pre s.threads]) in
+      ((c.prefill s.opts s.pre :: progs) @ extra @ [c.final_prog s.opts s.pre s.threads]) in
   let (cfg1, _) = run_solo c cfg0 0 in
   let runs = ref 0 and mism = ref 0 in
   let seen : (string, unit) Hashtbl.t = Hashtbl.create 1024 and nontriv = ref 0 in
   let continue = ref true in
+  let choices = ref [] in
   let cur_n = ref "" and sline = ref [] and cline = ref "" and hline = ref "" and fline = ref None
   and aline = ref None and vline = ref None in
   let finish_run () =
@@ -79,18 +85,19 @@ let process_runs (type sh ts l op ret) (c : (sh, ts, l, op, ret) comp) (s : scn)
       if List.exists (fun x -> x <> "0") (split_ws !cline) then incr nontriv
     end;
     (* replay *)
-    let kcount = Array.make (nthr + 2) 0 in
+    let kcount = Array.make (nthr + nextra + 2) 0 in
     let buf = Buffer.create 256 in
     let add_evs evs =
       List.iter (fun e ->
           match e with
           | EInv (t, _) ->
             let t = int_of_nat t - 1 in
-            Buffer.add_string buf (Printf.sprintf " i%d.%d" t kcount.(t + 1))
+            if t < nthr then Buffer.add_string buf (Printf.sprintf " i%d.%d" t kcount.(t + 1))
           | ERet (t, _, r) ->
             let t = int_of_nat t - 1 in
-            Buffer.add_string buf (Printf.sprintf " r%d.%d=%s" t kcount.(t + 1) (c.show_ret r));
-            kcount.(t + 1) <- kcount.(t + 1) + 1
+            if t < nthr then begin
+              Buffer.add_string buf (Printf.sprintf " r%d.%d=%s" t kcount.(t + 1) (c.show_ret r));
+              kcount.(t + 1) <- kcount.(t + 1) + 1 end
           | EFault (t, _) ->
             let t = int_of_nat t - 1 in
             Buffer.add_string buf (Printf.sprintf " FAULT%d" t)) evs in
@@ -116,6 +123,7 @@ let process_runs (type sh ts l op ret) (c : (sh, ts, l, op, ret) comp) (s : scn)
          | None -> Error pos)
     in
     let fine = List.mem_assoc "fine" s.opts in
+    let cfg1 = { cfg1 with c_sh = c.with_choices cfg1.c_sh !choices } in
     let res = if fine then Ok cfg1 else go cfg1 !sline 0 in
     let model_h = if fine then !hline else Buffer.contents buf in
     let impl_h = !hline in
@@ -130,10 +138,11 @@ let process_runs (type sh ts l op ret) (c : (sh, ts, l, op, ret) comp) (s : scn)
        if model_h <> impl_h then report "history" ""
        else (match !fline, !aline with
            | Some f, None when not fine ->
-             let (_, evs) = run_solo c cfg (nthr + 1) in
+             let (_, evs) = run_solo c cfg (nthr + nextra + 1) in
              let rets = List.filter_map (function ERet (_, _, r) -> Some r | _ -> None) evs in
-             let (cfgf, _) = run_solo c cfg (nthr + 1) in
-             let d = c.final_digest rets ^ c.sh_digest cfgf.c_sh in
+             let (cfgf, _) = run_solo c cfg (nthr + nextra + 1) in
+             let d = c.final_digest rets ^ c.sh_digest cfgf.c_sh ^
+                     (match c.cfg_digest with Some f -> f (Obj.repr cfgf) | None -> "") in
              if d <> f then report "final" (Printf.sprintf "|implF %s |modelF %s" f d)
            | _ -> ()));
     (match !vline with
@@ -153,7 +162,11 @@ let process_runs (type sh ts l op ret) (c : (sh, ts, l, op, ret) comp) (s : scn)
         sline := []; cline := ""; hline := ""; fline := None; aline := None; vline := None
       end
       else if n >= 1 && line.[0] = 'S' && (n = 1 || line.[1] = ' ') then
-        sline := List.map int_of_string (split_ws (String.sub line 1 (n - 1)))
+        (let toks = split_ws (String.sub line 1 (n - 1)) in
+         sline := List.map (fun tok -> match String.index_opt tok ':' with
+             | Some i -> int_of_string (String.sub tok 0 i) | None -> int_of_string tok) toks;
+         choices := List.filter_map (fun tok -> match String.index_opt tok ':' with
+             | Some i -> Some (int_of_string (String.sub tok (i + 1) (String.length tok - i - 1))) | None -> None) toks)
       else if n >= 1 && line.[0] = 'C' && (n = 1 || line.[1] = ' ') then
         cline := String.trim (String.sub line 1 (n - 1))
       else if n >= 1 && line.[0] = 'H' && (n = 1 || line.[1] = ' ') then
@@ -213,13 +226,13 @@ let queue_digest iter rets =
 let jdk_comp = {
   mach = jdk; sh0 = (fun _ _ -> qinit); ts0 = qiter0; parse_op = parse_qop; show_ret = show_qret;
   prefill = (fun _ pre -> List.map (fun v -> Offer (nat_of_int v)) pre);
-  final_prog = queue_final true; final_digest = queue_digest true; pc_of = (fun l -> Obj.repr l.l_pc); sh_digest = (fun _ -> "");
+  final_prog = queue_final true; final_digest = queue_digest true; pc_of = (fun l -> Obj.repr l.l_pc); sh_digest = (fun _ -> ""); extra = (fun _ _ -> []); with_choices = (fun sh _ -> sh); cfg_digest = None;
 }
 
 let mutex_comp = {
   mach = mutexq; sh0 = (fun _ _ -> minit); ts0 = (); parse_op = parse_qop; show_ret = show_qret;
   prefill = (fun _ pre -> List.map (fun v -> Offer (nat_of_int v)) pre);
-  final_prog = queue_final false; final_digest = queue_digest false; pc_of = Obj.repr; sh_digest = (fun _ -> "");
+  final_prog = queue_final false; final_digest = queue_digest false; pc_of = Obj.repr; sh_digest = (fun _ -> ""); extra = (fun _ _ -> []); with_choices = (fun sh _ -> sh); cfg_digest = None;
 }
 
 (* adders *)
@@ -237,7 +250,7 @@ let adder_digest rets = String.concat "," (List.map show_aret rets)
 let opt_int opts k d = match List.assoc_opt k opts with Some v -> int_of_string v | None -> d
 let adder_comp mach sh0 = {
   mach; sh0; ts0 = (); parse_op = parse_aop; show_ret = show_aret;
-  prefill = (fun _ _ -> []); final_prog = adder_final; final_digest = adder_digest; pc_of = Obj.repr; sh_digest = (fun _ -> "");
+  prefill = (fun _ _ -> []); final_prog = adder_final; final_digest = adder_digest; pc_of = Obj.repr; sh_digest = (fun _ -> ""); extra = (fun _ _ -> []); with_choices = (fun sh _ -> sh); cfg_digest = None;
 }
 
 (* breaker *)
@@ -268,8 +281,59 @@ let breaker_comp opts window_only = {
           if window_only then winit ticks else binit (nat_of_int (opt_int o "listeners" 1)) ticks);
   ts0 = (); parse_op = parse_bop; show_ret = show_bret;
   prefill = (fun _ _ -> []); final_prog = (fun _ _ _ -> []); final_digest = (fun _ -> "");
-  pc_of = Obj.repr; sh_digest = (fun s -> show_log s.b_log);
+  pc_of = Obj.repr; sh_digest = (fun s -> show_log s.b_log); extra = (fun _ _ -> []); with_choices = (fun sh _ -> sh); cfg_digest = None;
 }
+
+(* worker pool *)
+let show_pret = function
+  | PU -> "u" | PB b -> if b then "b1" else "b0"
+  | PRes (TVal id) -> "v" ^ string_of_int (int_of_nat id)
+  | PRes TCanceled -> "ec" | PNone -> "n" | PNoTask -> "x"
+let parse_pop name args =
+  let a i = match List.nth_opt args i with Some x -> nat_of_int (int_of_string x) | None -> O in
+  match name with
+  | "D" -> Do (a 0, a 1, a 2) | "T" -> TryDo (a 0, a 1, a 2)
+  | "E" -> Execute (a 0, a 1) | "Y" -> TryExecute (a 0, a 1)
+  | "X" -> Stop | "S" -> Start | "C" -> Cancel (a 0) | "G" -> OpenGate (a 0) | "F" -> Fire (a 0)
+  | "R" -> Await (a 0) | "r" -> PollRes (a 0)
+  | _ -> failwith ("unknown pool op " ^ name)
+let pool_slots opts threads =
+  let subs = List.fold_left (fun acc th -> acc + List.length (List.filter (fun tok ->
+      String.length tok > 0 && (tok.[0] = 'D' || tok.[0] = 'E')) th)) 0 threads in
+  opt_int opts "workers" 1 + subs
+let show_tres = function TVal id -> "v" ^ string_of_int (int_of_nat id) | TCanceled -> "ec"
+let pool_digest nclients nslots (o : Obj.t) =
+  let cfg : (pshared, unit, ppc, pop) config = Obj.obj o in
+  let s = cfg.c_sh in
+  let tasks = List.mapi (fun i t -> (i, t)) s.p_tasks in
+  let parts = List.filter_map (fun (i, t) -> match t with
+      | Some t -> Some (Printf.sprintf "t%d:x%d:%s" i (int_of_nat t.tk_execs)
+                          (String.concat "+" (List.map show_tres t.tk_future)))
+      | None -> None) tasks in
+  let armed = List.length (List.filter (fun x -> x.tm_armed) s.p_timers) in
+  (* live goroutines: spawned slots whose thread has not finished *)
+  let nsp = List.length s.p_spawned in
+  let live = ref 0 in
+  List.iteri (fun i th ->
+      let k = i - 1 - nclients in
+      if k >= 0 && k < nslots && k < nsp then
+        (match th.t_prog, th.t_cur with [], None -> () | _ -> incr live)) cfg.c_thr;
+  String.concat " " (parts @ [Printf.sprintf "exp=%s st=%d q=%d wg=%d armed=%d live=%d"
+                                (Zconv.string_of_z s.p_expanded) (int_of_nat s.p_state) (List.length s.p_queue)
+                                (int_of_nat s.p_wg) armed !live])
+let pool_comp opts threads =
+  let nslots = pool_slots opts threads in
+  let nclients = List.length threads in
+  {
+    mach = pool (nat_of_int (opt_int opts "workers" 1)) (zint (opt_int opts "limit" 0));
+    sh0 = (fun o _ -> pinit (nat_of_int (opt_int o "workers" 1)) (opt_int o "autostart" 1 <> 0) []);
+    ts0 = (); parse_op = parse_pop; show_ret = show_pret;
+    prefill = (fun _ _ -> []); final_prog = (fun _ _ _ -> []); final_digest = (fun _ -> "");
+    pc_of = Obj.repr; sh_digest = (fun _ -> "");
+    extra = (fun _ _ -> List.init nslots (fun k -> [Slot (nat_of_int k)]));
+    with_choices = (fun sh ch -> upd_choices sh (List.map nat_of_int ch));
+    cfg_digest = Some (pool_digest nclients nslots);
+  }
 
 (* ---------------------------------------------------------------- main loop *)
 
@@ -306,6 +370,7 @@ let () =
              | "mutexadd" -> process_runs (adder_comp mutex_adder (fun _ _ -> xinit)) s ic
              | "breaker" -> process_runs (breaker_comp opts false) s ic
              | "window" -> process_runs (breaker_comp opts true) s ic
+             | "pool" -> process_runs (pool_comp opts s.threads) s ic
              | k -> failwith ("unknown kind " ^ k))
           | None -> ())
        | "ERROR" :: _ -> print_endline line
